@@ -151,6 +151,9 @@ ENTRIES = {
     "optimized_gradient_low_dim": E(LD, "wc_optimized_gradient", "tight", prod(L=[3.0, 1.0], n=[1, 3])),
     "inexact_gradient_low_dim": E(LD, "wc_inexact_gradient", "tight", [dict(L=L, mu=mu, epsilon=e, n=n) for L, mu, e in ((3.0, 0.1, 0.1), (1.0, 0.2, 0.3)) for n in (1, 2)]),
     "frank_wolfe_low_dim": E(LD, "wc_frank_wolfe", "upper", prod(L=[1.0], D=[1.0], n=[2, 5])),
+    # no documented closed form: the returned number is still a bound (C09)
+    "averaged_projections": E(LD, "wc_averaged_projections", "upper", prod(n=[1, 2, 5])),
+    "alternate_projections": E(LD, "wc_alternate_projections", "upper", prod(n=[1, 2, 5])),
 }
 
 
